@@ -6,6 +6,7 @@ package main
 import (
 	"go/ast"
 	"go/constant"
+	"go/token"
 	"go/types"
 	"sort"
 	"strings"
@@ -317,18 +318,67 @@ func (c *Ctx) accessorTerm(fd *ast.FuncDecl) Term {
 		return nil
 	}
 	var out Term
-	for _, p := range c.NewSX().Run(fd) {
-		if p.Why != "" || len(p.Steps) != 0 || p.End != "return" || len(p.Vals) != 1 {
+	paths := c.NewSX().Run(fd)
+	var guarded []*Path
+	for _, p := range paths {
+		if p.Why != "" || p.End != "return" || len(p.Vals) != 1 {
 			return nil
 		}
-		if out != nil && !sameTerm(out, p.Vals[0]) {
+		if len(p.Steps) != 0 {
+			// decisions only: a defensive guard in front of the one expression (`if ego.val == nil { return 0 }; return len(ego.val)`)
+			if len(p.Effects()) != 0 {
+				return nil
+			}
+			guarded = append(guarded, p)
+			if _, isK := p.Vals[0].(TConst); isK {
+				continue
+			}
+		}
+		if out != nil && !sameTerm(eraseEpochs(out), eraseEpochs(p.Vals[0])) {
 			return nil
 		}
 		out = p.Vals[0]
 	}
+	if out == nil {
+		return nil
+	}
+	for _, p := range guarded {
+		if sameTerm(eraseEpochs(out), eraseEpochs(p.Vals[0])) {
+			continue // the decisions of this path do not change what is returned
+		}
+		// a constant in place of the expression: only 0 for len(X) on a path whose true decisions say X is empty (nil or length 0)
+		ln, isLen := out.(TBuiltin)
+		k, isK := constInt(p.Vals[0])
+		if !isLen || ln.Name != "len" || len(ln.Args) != 1 || !isK || k != 0 {
+			return nil
+		}
+		empty := false
+		for _, cd := range p.Conds() {
+			b, ok := cd.T.(TBin)
+			if !ok || b.Op != token.EQL || !cd.Truth {
+				continue
+			}
+			for _, pair := range [][2]Term{{b.X, b.Y}, {b.Y, b.X}} {
+				if _, isNil := pair[1].(TNil); isNil && sameTerm(eraseEpochs(pair[0]), eraseEpochs(ln.Args[0])) {
+					empty = true
+				}
+				if z, isZ := constInt(pair[1]); isZ && z == 0 {
+					if l2, ok := pair[0].(TBuiltin); ok && l2.Name == "len" && len(l2.Args) == 1 && sameTerm(eraseEpochs(l2.Args[0]), eraseEpochs(ln.Args[0])) {
+						empty = true
+					}
+				}
+			}
+		}
+		if !empty {
+			return nil
+		}
+	}
 	accessorTerms[fd] = out
+	guardedAccessor[fd] = len(guarded) > 0
 	return out
 }
+
+var guardedAccessor = map[*ast.FuncDecl]bool{}
 
 // isLenAccessor: method f's implementation returns len(recv.val).
 func (c *Ctx) isLenAccessor(f *types.Func) bool {
